@@ -5,6 +5,8 @@
 //!   half_life   AggValidFinal::half_life(min_periods)              vs the executable model and vs a
 //!               plain re-run of the search over the library's own vcorr_pearson(vshift(lag))
 //!   autocorr    the oracle itself: vcorr_pearson(vshift(lag)) for lags 1..=k
+//!   vcorr_pearson_arm  AggValidFinal::vcorr(.., Pearson) (agg.rs:44) vs the model and vs a direct vcorr_pearson call with
+//!               the default min_periods = len / 2 of the FIRST series (audit addition, own random stream)
 //! Element types f64 (NaN null), Option<f64>, i32; backends Vec, VecDeque (wrapped ring), ndarray.
 //! Generator / rendering code never sees the tevec prelude; all calls into tevec live in `mod imp`.
 use std::collections::VecDeque;
@@ -74,6 +76,27 @@ mod imp {
     per_type!(f64, spear_f, hl_f, ac_f, cell_f);
     per_type!(Option<f64>, spear_o, hl_o, ac_o, cell_o);
     per_type!(i32, spear_i, hl_i, ac_i, cell_f);
+
+    macro_rules! pearson_arm {
+        ($T:ty, $pear:ident, $tocell:ident) => {
+            /// [vcorr(.., Pearson) (agg.rs:44), vcorr_pearson called directly with the default min_periods = len / 2 of the FIRST series]
+            pub fn $pear<V: Vec1View<$T>>(a: &V, b: &V, mp: Option<usize>) -> Vec<Cell> {
+                let r = guarded(AssertUnwindSafe(|| {
+                    let c = a.vcorr(b, mp, CorrMethod::Pearson);
+                    let mpe = mp.unwrap_or(a.len() / 2);
+                    let d: f64 = a.titer().vcorr_pearson(b.titer(), mpe);
+                    (c, d)
+                }));
+                match r {
+                    Ok((c, d)) => vec![$tocell(c), Cell::F(d)],
+                    Err(k) => vec![Cell::Panic(k)],
+                }
+            }
+        };
+    }
+    pearson_arm!(f64, pear_f, cell_f);
+    pearson_arm!(Option<f64>, pear_o, cell_o);
+    pearson_arm!(i32, pear_i, cell_f);
 }
 
 // ---- series -------------------------------------------------------------------------------------
@@ -160,6 +183,18 @@ fn run_spear(ty: Ty, be: usize, a: &Series, b: &Series, mp: Option<usize>) -> Ve
         (Ty::O, _) => imp::spear_o(&rot_deque(&a.o(), 1), &rot_deque(&b.o(), 2), mp),
         (Ty::I, 0) => imp::spear_i(&a.i(), &b.i(), mp),
         (Ty::I, _) => imp::spear_i(&rot_deque(&a.i(), 3), &rot_deque(&b.i(), 1), mp),
+    }
+}
+
+fn run_pear(ty: Ty, be: usize, a: &Series, b: &Series, mp: Option<usize>) -> Vec<Cell> {
+    match (ty, be) {
+        (Ty::F, 0) => imp::pear_f(&a.f(), &b.f(), mp),
+        (Ty::F, 1) => imp::pear_f(&rot_deque(&a.f(), 2), &rot_deque(&b.f(), 1), mp),
+        (Ty::F, _) => { let ra = Array1::from_vec(a.f().into_iter().rev().collect::<Vec<f64>>()); let rb = Array1::from_vec(b.f().into_iter().rev().collect::<Vec<f64>>()); imp::pear_f(&ra.slice(tevec::export::ndarray::s![..;-1]), &rb.slice(tevec::export::ndarray::s![..;-1]), mp) }
+        (Ty::O, 0) => imp::pear_o(&a.o(), &b.o(), mp),
+        (Ty::O, _) => imp::pear_o(&rot_deque(&a.o(), 1), &rot_deque(&b.o(), 2), mp),
+        (Ty::I, 0) => imp::pear_i(&a.i(), &b.i(), mp),
+        (Ty::I, _) => imp::pear_i(&rot_deque(&a.i(), 3), &rot_deque(&b.i(), 1), mp),
     }
 }
 
@@ -294,6 +329,19 @@ fn emit_spear(em: &mut Emitter, a: &Series, b: &Series, ty: Ty, be: usize, mp: O
     em.case("custom:same:1e-7", &tags, &desc,
         || format!("(rep_cells 2%nat (run_corr_{} {} true {} {}))", ty.sfx(), coq_mp(mp), coq_series(a, ty), coq_series(b, ty)),
         || run_spear(ty, be, a, b, mp));
+}
+
+/// the Pearson arm of vcorr (agg.rs:44): the model term is the same interpreter with spearman = false
+fn emit_pear(em: &mut Emitter, a: &Series, b: &Series, ty: Ty, be: usize, mp: Option<usize>, extra: &str) {
+    let len = a.xs.len();
+    let npair = a.xs.iter().zip(b.xs.iter()).filter(|(x, y)| x.is_some() && y.is_some()).count();
+    let tags = format!("fn=vcorr_pearson_arm ty={} be={} len={} lens={} npair={} mp={} {} {}{}", ty.name(), be_name(ty, be),
+        len.min(41), if a.xs.len() == b.xs.len() { "eq" } else if a.xs.len() < b.xs.len() { "first_shorter" } else { "first_longer" }, npair.min(9),
+        match mp { None => "default".into(), Some(m) => format!("{}", m.min(9)) }, a.tags, extra, if len == 0 { " nt=0" } else { "" });
+    let desc = format!("fn=vcorr(Pearson) ty={} be={} mp={:?} xs={:?} ys={:?}", ty.name(), be_name(ty, be), mp, a.xs, b.xs);
+    em.case("custom:same:1e-7", &tags, &desc,
+        || format!("(rep_cells 2%nat (run_corr_{} {} false {} {}))", ty.sfx(), coq_mp(mp), coq_series(a, ty), coq_series(b, ty)),
+        || run_pear(ty, be, a, b, mp));
 }
 
 /// strictly increasing maps applied to the implementation's input only
@@ -551,6 +599,85 @@ fn main() {
                 }
             }
             len += if len < 24 { 1 } else if thorough { 7 } else { 5 };
+        }
+    }
+    // =========================== audit additions (own random stream: everything above is unchanged) =====
+    {
+        let mut rng2 = Rng::new(em.args.seed ^ 0x20_A0D1);
+        let mut rot2 = 0usize;
+        // ---- vcorr, Pearson arm: exhaustive pairs over {-1, 2, 3, null}; equal lengths 0..=3 and unequal lengths
+        let alpha4 = [Some(-1.0), Some(2.0), Some(3.0), None];
+        for (la, lb) in [(0usize, 0usize), (1, 1), (2, 2), (3, 3), (0, 2), (2, 0), (1, 3), (3, 1), (2, 3), (3, 2)] {
+            let (alla, allb) = (all_series(&alpha4, la), all_series(&alpha4, lb));
+            let stride = if la + lb >= 5 { 4 } else { 1 };
+            let mut cnt = 0usize;
+            for xa in alla.iter() {
+                for xb in allb.iter() {
+                    cnt += 1;
+                    if thorough || cnt % stride == 0 {
+                        let a = Series { xs: xa.clone(), tags: "style=exhaustive4 nulls=enum".into() };
+                        let b = Series { xs: xb.clone(), tags: String::new() };
+                        let mps: Vec<Option<usize>> = if la.max(lb) <= 2 {
+                            let mut v: Vec<Option<usize>> = (0..=la + 1).map(Some).collect();
+                            v.push(None);
+                            v
+                        } else {
+                            rot2 += 1;
+                            vec![[None, Some(1), Some(2), Some(3)][rot2 % 4]]
+                        };
+                        let tys = if a.nonull() && b.nonull() { vec![Ty::F, Ty::O, Ty::I] } else { vec![Ty::F, Ty::O] };
+                        for mp in mps {
+                            rot2 += 1;
+                            let ty = tys[rot2 % tys.len()];
+                            emit_pear(&mut em, &a, &b, ty, rot2 % ty.nbe(), mp, "");
+                        }
+                    }
+                }
+            }
+        }
+        let nrand = if thorough { 1200 } else { 200 };
+        for i in 0..nrand {
+            let len = if i % 4 == 0 { rng2.range(2, 8) } else { rng2.range(8, 40) } as usize;
+            let a = gen_series(&mut rng2, len);
+            let kind = i % 5;
+            let b = match kind {
+                0 | 1 => gen_series(&mut rng2, len),
+                2 => a.map(|x| -2.0 * x + 0.25),
+                3 => { let l2 = len.saturating_sub(1 + rng2.below(3)); gen_series(&mut rng2, l2) }
+                _ => { let l2 = len + 1 + rng2.below(3); gen_series(&mut rng2, l2) }
+            };
+            let mut tys = vec![Ty::F, Ty::O];
+            if a.integral() && a.nonull() && b.integral() && b.nonull() { tys.push(Ty::I) }
+            let mp = match i % 4 { 0 => None, 1 => Some(1), 2 => Some(rng2.below(len + 2)), _ => Some(len / 2 + 1) };
+            rot2 += 1;
+            let ty = tys[rot2 % tys.len()];
+            emit_pear(&mut em, &a, &b, ty, rot2 % ty.nbe(), mp, &format!("second={}", ["indep", "indep", "affine", "shorter", "longer"][kind]));
+        }
+        // the default min_periods = len / 2 of the FIRST series decides (max_with(2) hides it for short series): no nulls, omitted
+        // min_periods, one series about half as long as the other, in both orders
+        for la in 6..=(if thorough { 40usize } else { 24 }) {
+            for d in 0..3usize {
+                let lb = (la / 2 + d).saturating_sub(1);
+                let a = Series { xs: gen_values(&mut rng2, "walk", la, true).into_iter().map(Some).collect(), tags: "style=default_from_first nulls=none".into() };
+                let b = Series { xs: gen_values(&mut rng2, "walk", lb, true).into_iter().map(Some).collect(), tags: String::new() };
+                for (x, y) in [(&a, &b), (&b, &a)] {
+                    rot2 += 1;
+                    let ty = [Ty::F, Ty::O, Ty::I][rot2 % 3];
+                    let y2 = Series { xs: y.xs.clone(), tags: String::new() };
+                    let x2 = Series { xs: x.xs.clone(), tags: "style=default_from_first nulls=none".into() };
+                    emit_pear(&mut em, &x2, &y2, ty, rot2 % ty.nbe(), None, "second=half");
+                }
+            }
+        }
+        // ---- winsorize: the witnesses of C20_winsorize_scope_needed replayed on the real code (q = 1, k = -1: [1, 2, 3] ->
+        //      [3, 3, 1]), and a NaN multiplier (series unchanged), every element type
+        for xs in [vec![Some(1.0), Some(2.0), Some(3.0)], vec![Some(1.0), None, Some(2.0), Some(3.0)], vec![Some(2.0), Some(-1.0), Some(3.0), Some(3.0), Some(7.0)]] {
+            let s = Series { xs, tags: "style=crafted_reversed nulls=some".into() };
+            for ty in types_of(&s) {
+                for (m, p) in [(0usize, 1.0), (0, 0.75), (1, -1.0), (2, -1.0), (1, f64::NAN), (2, f64::NAN), (0, f64::NAN)] {
+                    emit_wins(&mut em, &s, ty, 0, m, Some(p), false);
+                }
+            }
         }
     }
     em.finish();
